@@ -65,7 +65,7 @@ func c14Leaf(name string) py.Object {
 		}
 		return py.String(string(rs))
 	case 1: // bytes of 0..2 bytes
-		k := verifChoice(name+"_len", verifBound(2, 3))
+		k := verifChoice(name+"_len", 3)
 		bs := make([]byte, k)
 		for i := range bs {
 			bs[i] = c14Bytes[verifChoice(name+"_b"+strconv.Itoa(i), verifBound(7, len(c14Bytes)))]
